@@ -3,7 +3,8 @@ from . import common as K
 TITLE = "autoSql: generated field count, schema flow, parser loop termination, slice provenance, generator tokens"
 EXPLANATION = (
     "bed_autosql declares exactly 3 + e fields for every e (table + loop-range arithmetic); the tool stores the generated or the supplied "
-    "schema and the header's field count is that of the parsed declaration; every loop of the parser is classified as terminating and the "
+    "schema on both input paths (file, and stdin with the first line chained back) and the header's field count is that of the last parsed declaration; "
+    "the declaration list is left only at end of input (no cap), simple/object/table map to their declaration types in both parsers, names are identifiers; every loop of the parser is classified as terminating and the "
     "token loops are shown (abstract run with every token = \"\") to exit at end of input; the input is sliced only at cursor positions that "
     "are char boundaries; every type token the generator emits is an arm of the parser.")
 UNDECIDED = "that the parser accepts every grammatical schema (no grammar is analysed); memory growth other than in the token loops."
